@@ -98,6 +98,7 @@ static cbor_item_t* leaf(void) {
     case 7: return cbor_build_negint64(v);
     case 8: {
       static const char* s[] = {"", "a", "hello", "\xc3\xa9t\xc3\xa9", "\xe2\x82\xac", "\xff\xfe"};
+      if (vh_randn(8) == 0) return cbor_build_stringn("a\0b\xc3\xa9\0\0z", 8); /* U+0000 is a valid scalar value: text may contain NUL bytes */
       return cbor_build_string(s[vh_randn(6)]);
     }
     case 9: {
